@@ -772,6 +772,47 @@ def _u_cover(U):
     return cover
 
 
+def _presence_edge_ok(node, lab):
+    """Edge filter that assumes presence / type tests of optional members succeed:
+    `X is not None`, `isinstance(...)`, `K in group`."""
+    if node.kind != 'test' or lab not in (True, False):
+        return True
+    e = node.expr
+    neg = False
+    while isinstance(e, ast.UnaryOp) and isinstance(e.op, ast.Not):
+        neg = not neg
+        e = e.operand
+    pres = None
+    if isinstance(e, ast.Compare) and len(e.ops) == 1 and \
+            isinstance(e.comparators[0], ast.Constant) and e.comparators[0].value is None:
+        pres = isinstance(e.ops[0], ast.IsNot)
+    elif isinstance(e, ast.Call) and dotted(e.func) == 'isinstance':
+        pres = True
+    elif isinstance(e, ast.Compare) and len(e.ops) == 1 and isinstance(e.ops[0], ast.In):
+        pres = True
+    if pres is None:
+        return True
+    want = pres != neg          # label on which the member is present
+    return lab == want
+
+
+def _updates_on_every_path(ctx, rid, func, entries, label):
+    """Each updater entry is executed on every path from entry to the normal exit
+    (optional members: assuming their presence test succeeds)."""
+    cfg = cfg_of(func)
+    by_key = {}
+    for e in entries:
+        if cfg.has(e.node):
+            by_key.setdefault((e.key, getattr(e, 'op', e.kind)), set()).add(
+                cfg.node_of(e.node).id)
+    for (key, op), nodes in sorted(by_key.items()):
+        ok = cfg.must_pass(cfg.entry.id, cfg.exit.id, nodes, edge_ok=_presence_edge_ok)
+        ctx.ob(rid, '%s:always(%s/%s)' % (label, key, op), ok, func.where(),
+               'key %r is rewritten on every path through %s' % (key, func.qualname) if ok else
+               'a path through %s returns without rewriting key %r (a conditional skip): the '
+               'checkpoint can keep a stale value' % (func.qualname, key))
+
+
 def rule_P4_bound(ctx, cls, rid='P4'):
     ctx.rule(rid, 'incremental completeness: every persisted attribute that the code running '
              'between two full writes can modify is re-written by the incremental update '
@@ -818,6 +859,7 @@ def rule_P4_bound(ctx, cls, rid='P4'):
                    % (e.key, e.attr) if rs else
                    'dataset %r is overwritten without being resized to the shape of %r'
                    % (e.key, e.attr))
+    _updates_on_every_path(ctx, rid, u, U, '%s.update' % cls.name)
     # nested objects with their own update
     res = resolver(prog)
     for e in W:
@@ -945,6 +987,7 @@ def rule_P4_sampler(ctx, rid='P4', rid6='P6'):
                        hit, d, e.attr, 'called' if ok else 'NOT called'))
     for u in U:
         _index_agreement(ctx, rid, 'Sampler', u)
+    _updates_on_every_path(ctx, rid, ufun, U, 'Sampler.write_shell_update')
     # -- (3) the generator
     draws = res.trans(add_samples).draws
     if draws and 'rng' in persisted:
